@@ -342,7 +342,7 @@ def corpus_cases():
 
 
 def run(rep, tier, rng):
-    vplib.proof_stage(rep, "Props/C07.v", extra_targets=["Core/Run.vo"])
+    vplib.proof_stage(rep, "Props/C07.v", extra_targets=cc.EXTRA_TARGETS)
     rep.coverage["trusted_base"] = vplib.GENERIC_TRUSTED + [
         "models Core/{Bounds,Limits,Machine}.v written by hand from analysis.rs (NodeBounds), node/redeem.rs (RedeemData::new), "
         "bit_machine/{mod,limits}.rs; MAX_CELLS / MAX_FRAMES / OVERHEAD regenerated (Generated/Consts.v)",
@@ -392,7 +392,7 @@ def run(rep, tier, rng):
             continue
         impl, model = vplib.eval_cases(rep, binary, "core", cs, IMPORTS, tag="c07ex%d" % prof, batch=60)
         pf, _ = vplib.decide(rep, cs, impl, model, pc, None, nontrivial,
-                             what="correspondence Core/Run.v (run_exec) vs BitMachine, %s build" % ("debug" if prof == 0 else "release"))
+                             what="correspondence Core/Run2.v (run_exec2) vs BitMachine, %s build" % ("debug" if prof == 0 else "release"))
         total_fail += pf
         for c in cs:
             t = cc.split_exec(impl.get(c.cid))["tag"]
